@@ -31,9 +31,16 @@ Theorem C03_row_level_fetch_columns ms c :
   In c (merged_cols ms) <-> exists cols, In (MGran cols) ms /\ In c cols.
 Proof. exact (granular_columns ms c). Qed.
 
-(* power analysis: one ungrouped aggregate query *)
-Theorem C03_solve_power_one_query ms : has_aggr ms = true -> solve_power_trace ms = [FAggr (merged_spec ms) None].
-Proof. exact (solve_power_single_query ms). Qed.
+(* power analysis: one ungrouped aggregate query, whatever mixture of metrics with aggregated power analysis
+   (PowerBaseAggregated) and without any power analysis the experiment holds *)
+Theorem C03_solve_power_one_query ps : (forall p, In p ps -> p <> PwPlain) -> has_power_aggr ps = true ->
+  solve_power_trace ps = [FAggr (power_merged_spec ps) None].
+Proof. exact (solve_power_single_query ps). Qed.
+(* in general at most one aggregate query, issued first; anything else is a non-aggregated power metric reading the data *)
+Theorem C03_solve_power_trace_shape ps : exists calls,
+  (forall f, In f calls -> exists j, f = FPlain j (0, 0)%Z /\ nth_error ps j = Some PwPlain) /\
+  solve_power_trace ps = (if has_power_aggr ps then [FAggr (power_merged_spec ps) None] else []) ++ calls.
+Proof. exact (solve_power_trace_shape ps). Qed.
 
 Example C03_nonvacuous :
   let ms := [MAggr (mk_spec true ["x"%string] ["x"%string] []); MAggr (mk_spec true ["y"%string] [] [])] in
@@ -49,3 +56,4 @@ Print Assumptions C03_one_additional_row_level_fetch.
 Print Assumptions C03_row_level_only.
 Print Assumptions C03_row_level_fetch_columns.
 Print Assumptions C03_solve_power_one_query.
+Print Assumptions C03_solve_power_trace_shape.
